@@ -68,7 +68,7 @@ Proof. intros. unfold alloc. cbn [cells]. apply nth_error_app_old. assumption. Q
 
 Lemma in_place_in_range : forall g s o l f, in_place g s o = Some (l, f) -> exists x, nth_error (cells s) l = Some x.
 Proof.
-  intros g s o l f H. destruct o as [f0|c e src|c e [m|] t|o|o|o|l0 v]; cbn in H; try discriminate.
+  intros g s o l f H. destruct o as [f0|c e src|c e [m|] t|a o|o|o|l0 v]; cbn in H; try discriminate.
   - destruct (holds s src && init_writes_arg (g c)); [|discriminate].
     destruct (nth_error (cells s) src) eqn:E; cbn in H; [|discriminate]. inversion H; subst. eauto.
   - destruct (holds s m && holds s t && series_writes_arg (g c)); [|discriminate].
@@ -141,7 +141,7 @@ Definition targets (g : cfg) (o : sop) (l : nat) : Prop :=
 
 Lemma in_place_targets : forall g s o l f, in_place g s o = Some (l, f) -> targets g o l.
 Proof.
-  intros g s o l f H. destruct o as [f0|c e src|c e [m|] t|o|o|o|l0 v]; cbn in H; try discriminate; cbn.
+  intros g s o l f H. destruct o as [f0|c e src|c e [m|] t|a o|o|o|l0 v]; cbn in H; try discriminate; cbn.
   - destruct (holds s src); cbn in H; [|discriminate]. destruct (init_writes_arg (g c)); [|discriminate].
     destruct (nth_error (cells s) src); cbn in H; [|discriminate]. inversion H; auto.
   - destruct (holds s m && holds s t); cbn in H; [|discriminate]. destruct (series_writes_arg (g c)); [|discriminate].
@@ -172,7 +172,7 @@ Lemma caller_frames_untouched_l : forall g, ctors_copy g ->
   forall ops s l f, content s l = Some f -> (forall v, ~ In (SMutate l v) ops) -> content (run g s ops) l = Some f.
 Proof.
   intros g Hg ops s l f H N. apply run_untargeted; [assumption|].
-  intros o Ho T. destruct o as [f0|c e src|c e [m|] t|o|o|o|l0 v]; cbn in T; try contradiction.
+  intros o Ho T. destruct o as [f0|c e src|c e [m|] t|a o|o|o|l0 v]; cbn in T; try contradiction.
   - destruct T as [_ T]. rewrite (proj1 (Hg c)) in T. discriminate.
   - destruct T as [_ T]. rewrite (proj2 (Hg c)) in T. discriminate.
   - subst l0. exact (N v Ho).
@@ -228,7 +228,7 @@ Qed.
 Definition wf (s : store) : Prop :=
   forall l, In l (held s) -> exists x, nth_error (cells s) l = Some x /\ is_obj (own x) = false.
 
-Definition df_copies (g : cfg) : Prop := forall c, df_is_copy (g c) = true.
+Definition df_copies (g : cfg) : Prop := forall c a, handout_copies (g c) a = true.
 
 Lemma holds_in : forall s l, holds s l = true -> In l (held s).
 Proof.
@@ -244,13 +244,13 @@ Qed.
 
 Lemma created_held_not_obj : forall g s o w f, created g s o = Some (w, f, true) -> is_obj w = false.
 Proof.
-  intros g s o w f H. destruct o as [f0|c e src|c e m t|o|o|o|l0 v]; cbn in H; try discriminate.
+  intros g s o w f H. destruct o as [f0|c e src|c e m t|a o|o|o|l0 v]; cbn in H; try discriminate.
   - inversion H; reflexivity.
   - destruct (holds s src); [|discriminate]. destruct (nth_error (cells s) src); cbn in H; [inversion H | discriminate].
   - destruct (holds s t && match m with Some l => holds s l | None => true end); [|discriminate].
     destruct (nth_error (cells s) t); cbn in H; [inversion H | discriminate].
   - destruct (nth_error (cells s) o); [|discriminate]. destruct (own c); try discriminate.
-    destruct (df_is_copy (g c0)); inversion H; reflexivity.
+    destruct (handout_copies (g c0) a); inversion H; reflexivity.
   - destruct (nth_error (cells s) o); [|discriminate]. destruct (is_obj (own c)); inversion H; reflexivity.
 Qed.
 
@@ -286,7 +286,7 @@ Proof.
   destruct (in_place g s o) as [[l' f]|] eqn:E; [|assumption].
   destruct (Nat.eqb l' l) eqn:Q; [|assumption]. apply Nat.eqb_eq in Q. subst l'. exfalso.
   assert (Hh : holds s l = true).
-  { destruct o as [f0|c e src|c e [m|] t|o|o|o|l0 v]; cbn in E; try discriminate.
+  { destruct o as [f0|c e src|c e [m|] t|a o|o|o|l0 v]; cbn in E; try discriminate.
     - destruct (holds s src) eqn:Hh; cbn in E; [|discriminate]. destruct (init_writes_arg (g c)); [|discriminate].
       destruct (nth_error (cells s) src); cbn in E; [|discriminate]. inversion E; subst. assumption.
     - destruct (holds s m) eqn:Hh; cbn in E; [|discriminate]. destruct (holds s t && series_writes_arg (g c)); [|discriminate].
@@ -330,18 +330,18 @@ Proof.
   rewrite Hc. cbn. eauto.
 Qed.
 
-Lemma df_alias_step : forall g s o x c, nth_error (cells s) o = Some x -> own x = Obj c -> df_is_copy (g c) = false ->
-  step g s (SDf o) = {| cells := cells s; held := held s ++ [o] |}.
+Lemma df_alias_step : forall g s a o x c, nth_error (cells s) o = Some x -> own x = Obj c -> handout_copies (g c) a = false ->
+  step g s (SDf a o) = {| cells := cells s; held := held s ++ [o] |}.
 Proof.
-  intros g s o x c Hx Ho Hc. unfold step. cbn [in_place created leaked]. rewrite Hx, Ho, Hc. reflexivity.
+  intros g s a o x c Hx Ho Hc. unfold step. cbn [in_place created leaked]. rewrite Hx, Ho, Hc. reflexivity.
 Qed.
 
-Lemma alias_reaches_object : forall g c, df_is_copy (g c) = false ->
-  content (run g (with_object g c) [SDf 1; SMutate 1 7%Z]) 1 <> content (with_object g c) 1.
+Lemma alias_reaches_object : forall g c a, handout_copies (g c) a = false ->
+  content (run g (with_object g c) [SDf a 1; SMutate 1 7%Z]) 1 <> content (with_object g c) 1.
 Proof.
-  intros g c H. destruct (with_object_shape g c) as [Hc Hh].
+  intros g c a H. destruct (with_object_shape g c) as [Hc Hh].
   unfold run. cbn [fold_left].
-  rewrite (df_alias_step g (with_object g c) 1 {| own := Obj c; val := normalise c false plain |} c)
+  rewrite (df_alias_step g (with_object g c) a 1 {| own := Obj c; val := normalise c false plain |} c)
     by (try rewrite Hc; try reflexivity; assumption).
   rewrite step_content by (cbn [cells]; rewrite Hc; cbn; lia).
   cbn [in_place holds held cells]. rewrite Hh, Hc. cbn [app existsb Nat.eqb orb nth_error option_map val].
@@ -353,10 +353,10 @@ Lemma objects_iff : forall g,
   <-> df_copies g.
 Proof.
   intros g. split; [|apply objects_untouched_l].
-  intros H c. destruct (df_is_copy (g c)) eqn:E; [reflexivity|]. exfalso.
-  apply (alias_reaches_object g c E).
+  intros H c a. destruct (handout_copies (g c) a) eqn:E; [reflexivity|]. exfalso.
+  apply (alias_reaches_object g c a E).
   destruct (with_object_shape g c) as [Hc Hh].
-  rewrite (H [SDf 1; SMutate 1 7%Z] (with_object g c) 1 {| own := Obj c; val := normalise c false plain |}).
+  rewrite (H [SDf a 1; SMutate 1 7%Z] (with_object g c) 1 {| own := Obj c; val := normalise c false plain |}).
   - unfold content. rewrite Hc. reflexivity.
   - apply with_object_wf.
   - rewrite Hc. reflexivity.
@@ -365,12 +365,12 @@ Qed.
 
 (* ---- hand-outs are independent: `.df` creates a new location; a write into one location changes no other ---- *)
 
-Lemma df_fresh : forall g s o x c, nth_error (cells s) o = Some x -> own x = Obj c -> df_is_copy (g c) = true ->
-  content (step g s (SDf o)) (length (cells s)) = Some (val x) /\
-  In (length (cells s)) (held (step g s (SDf o))) /\
-  forall l, l < length (cells s) -> content (step g s (SDf o)) l = content s l.
+Lemma df_fresh : forall g s a o x c, nth_error (cells s) o = Some x -> own x = Obj c -> handout_copies (g c) a = true ->
+  content (step g s (SDf a o)) (length (cells s)) = Some (val x) /\
+  In (length (cells s)) (held (step g s (SDf a o))) /\
+  forall l, l < length (cells s) -> content (step g s (SDf a o)) l = content s l.
 Proof.
-  intros g s o x c Hx Ho Hc. unfold step. cbn [in_place created leaked]. rewrite Hx, Ho, Hc.
+  intros g s a o x c Hx Ho Hc. unfold step. cbn [in_place created leaked]. rewrite Hx, Ho, Hc.
   unfold alloc, content. cbn [cells held]. repeat split.
   - rewrite nth_error_app2 by lia. rewrite Nat.sub_diag. reflexivity.
   - apply in_or_app. right. left. reflexivity.
